@@ -954,7 +954,7 @@ def check_files_read_pieces(ctx, rep, rng, tier):
         return 0
     model = ctx["model"]
     cnt = 0
-    for i in range(300 if tier == "quick" else 15000):
+    for i in range(120 if tier == "quick" else 15000):
         st = rnd_filesinfo(rng)
         n = len(st[0])
         # --- names
@@ -1042,7 +1042,7 @@ def check_files_read(ctx, rep, rng, tier):
     inputs = [b"", b"\x00", b"\x00\x00", b"\x01\x00", b"\x02\x0e\x01\x80\x00", b"\x02\x0e\x01\xc0\x0f\x01\x80\x00rest", b"\x01\x19\x02\x00\x00\x00",
               b"\x01\x11\x05\x00\x61\x00\x00\x00\x00", b"\x01\x11\x05\x01\x61\x00\x00\x00\x00", b"\x01\x18\x01\x00\x00", b"\x01\x63\x00\x00",
               b"\x01\x15\x06\x01\x00\x20\x00\x00\x00\x00", b"\x01\x14\x0a\x01\x00\x01\x02\x03\x04\x05\x06\x07\x08\x00", b"\x01\x19\x05\x00"]
-    for i in range(300 if tier == "quick" else 15000):
+    for i in range(150 if tier == "quick" else 15000):
         st = rnd_filesinfo(rng)
         for e in st[0]:
             e[1] = [rng.random() < 0.5] if e[0] and rng.random() < 0.7 else []
